@@ -1623,6 +1623,10 @@ def shrink(d: Disagreement) -> Disagreement:
     case = d.case
     if not isinstance(case, dict):
         return d
+    if str(case.get('kind', '')).startswith('loop:') and 'alphabet-table' not in case:
+        from harness.c03_loops import shrink_loop
+        from harness.common import run_driver
+        return shrink_loop(run_driver, d)
     if case.get('kind') == 'explore':
         v, src, kind, step = case['v'], case['s'], case['c'], case.get('step')
         tk = new_parser(v).tokenizer
@@ -1737,6 +1741,9 @@ def replay(run: Run) -> int:
         line, impl, reg, _ = lexer_case(case['v'], case['s'], case.get('advance') == 'own')
         print(impl, run.driver('C03', [line])[0])
         return 1
+    if str(case.get('kind', '')).startswith('loop:'):
+        from harness.c03_loops import replay_loop
+        return replay_loop(run, case)
     print('unsupported replay kind')
     return 2
 
@@ -1763,7 +1770,7 @@ def body(run: Run) -> int:
     run.stats.extra['partial'] = ('part (c) "no other exception type escapes from ANY parse/evaluate, no hang" is NOT '
                                   'proved: histogram keys explore:* are an exploration (failing-input search), '
                                   'the theorems cover parser reuse, lexer totality/termination and the error taxonomy')
-    run.prove(['EPV.Props.C03', 'EPV.Props.C03Tables'], ['EPV.Spec.EscapeTriggers'])
+    run.prove(['EPV.Props.C03', 'EPV.Props.C03Tables', 'EPV.Props.C03Loops', 'EPV.Props.C03Loops2'], ['EPV.Spec.EscapeTriggers'])
     for code in info.get('codes_not_closed', []):
         run.disagree(Disagreement({'kind': 'error-code', 'code': code}, 'class-not-ElementPathError', None,
                                   'subclass-of-ElementPathError', what='taxonomy', site='exceptions.XPATH_ERROR_CODES'))
@@ -1781,6 +1788,9 @@ def body(run: Run) -> int:
                                                              'a:(: c :)b', '(: :) :x', '(:(:(:', '1 (: :) (: :) 2', '(: "x :) 1')]
         correspond_lexer(run, lex_sources)
         correspond_taxonomy(run, run.scale(600, 6000))
+        from harness.c03_loops import correspond_loops
+        correspond_loops(run, run.scale(60, 400))
+        run.log('loops done')
     except DriverError as e:
         run.broken.append('driver:C03 ' + str(e)[:300])
     run.stats.rule = (
@@ -1790,7 +1800,11 @@ def body(run: Run) -> int:
         'Lean cursor model; evaluate after failed evaluate on the same token. lexer: every tokenizer match of sampled '
         'sources through the real base Parser.advance vs the Lean model. xpath_error: all codes, prefixed/braced/'
         'mutated, QNames, 8 namespace maps. explore: grammar-derived, mutated, ill-typed, random-Unicode expressions x 4 '
-        'parser versions x 6 contexts, each parsed and evaluated 5 ways under a 5 s watchdog. distinct = distinct '
+        'parser versions x 6 contexts, each parsed and evaluated 5 ways under a 5 s watchdog. loops (loop:*): '
+        'int_to_alphabetic on the live alphabets and on injected ones (empty, repeated, astral, unary) x boundary and '
+        'random big numbers; get_argument_tokens on every token of parsed comma trees and on trees with a damaged '
+        "',' token; ElementNode.iter_descendants on element nodes of ElementTree/lxml node trees (deep, wide, text, "
+        'comments, PIs) and on hand-edited children lists; the parent walks of iter_ancestors / iter_preceding / iter_followings / lang() (1.0, 2.0) on every kind of item x document / element / fragment contexts and on contexts whose root was moved inside the tree; live = Lean loop model = recursive spec. distinct = distinct '
         'request cases; non-trivial = history with both failing and succeeding calls / source with >1 token / parsed '
         'expression')
     return run.finish('proof', shrink=shrink, search=search)
